@@ -92,12 +92,12 @@ static int xe_main(int argc, char **argv) {
   { long p = 0; int j = 0; while (p < slen) { xe_str[j++] = sbuf + p; p += strlen(sbuf + p) + 1; } }
   rs = calloc(n + 1, sizeof(xv_resp));
   if (getenv("XV_XRAYINIT")) XRayInit();
-  noslot = getenv("XV_NOSLOT") != NULL;     /* call the generated functions WITHOUT an error slot (status is then always 0) */
+  noslot = getenv("XV_NOSLOT") != NULL;     /* call everything WITHOUT an error slot (status is then always 0) */
   for (k = 0; k < n; k++) {
     xrl_error *e = NULL; const xv_req *r = &rq[k]; xv_resp *o = &rs[k];
     o->msg = -1;
     if (r->fn >= 0 && r->fn < XV_NFN) o->v[0] = xv_call(r->fn, r->i, r->d, xe_s(r->s), noslot ? NULL : &e);
-    else if (r->fn >= 1000 && r->fn < XS_END) xe_special(r, o, &e);
+    else if (r->fn >= 1000 && r->fn < XS_END) xe_special(r, o, noslot ? NULL : &e);
     else o->status = 16;
     if (e) { o->status |= 1; o->code = (int)e->code; o->msg = xe_msgid(e->message); xrl_error_free(e); }
   }
